@@ -38,7 +38,17 @@ def trickle_history(rng, n):
                 dt = rng.choice([0, 1000, 300_000, 3_000_000, 11_000_000, 60_000_000, 3_600_000_000])
             ops.append([dt] + o)
         g.ops = []
-    return {"lazy": True, "ops": ops}
+        if rng.random() < 0.05:
+            # a rejected write (stale handle of a bucket that does not exist) in between: it must not leave the store
+            # in a state in which later writes are no longer flushed. (The references it would have created stay unassigned.)
+            if rng.random() < 0.5:
+                ops.append([rng.choice([0, 1000, 3_000_000]), "bulk", "ghost", [storegen.rand_ev(rng), storegen.rand_ev(rng)]])
+                g.nrefs += 2
+            else:
+                ops.append([rng.choice([0, 1000, 3_000_000]), "insert", "ghost", storegen.rand_ev(rng)])
+                g.nrefs += 1
+    # the process's local time zone must not matter (datetime.now() is naive local time)
+    return {"lazy": True, "ops": ops, "tz": rng.choice([None, None, "America/New_York", "Asia/Tokyo", "UTC"])}
 
 
 class C18(C06):
@@ -58,7 +68,7 @@ class C18(C06):
     def gen(self, ctx):
         out = []
         rng = ctx.rng("c18")
-        for i in range(ctx.pick(60, 800)):
+        for i in range(ctx.pick(150, 1200)):
             out.append(("clock", {"k": "view", **trickle_history(rng, rng.randint(8, ctx.pick(50, 150)))}))
         return out
 
